@@ -9,7 +9,7 @@ A mutant file is a unified diff with header lines
     # suite: pass              (optional) the repository's own tests must still pass with it
 usage: verify.py selftest [--suite] [--tier quick] [mutants/x.diff ...]
 """
-import glob, os, re, shutil, subprocess, sys, time
+import hashlib, glob, os, re, shutil, subprocess, sys, time
 
 ROOT = os.path.dirname(os.path.abspath(__file__))
 
@@ -50,7 +50,8 @@ def run_one(path, suite, tier):
     finally:
         sh(["git", "-C", "/repo", "worktree", "remove", "--force", wt])
         shutil.rmtree(wt, ignore_errors=True)
-        for d in glob.glob(os.path.join(ROOT, ".build", "mod-*")):
+        tag = hashlib.sha1(wt.encode()).hexdigest()
+        for d in glob.glob(os.path.join(ROOT, ".build", "alt-%s-*" % tag[:8])) + glob.glob(os.path.join(ROOT, ".build", "mod-%s" % tag[:10])):
             shutil.rmtree(d, ignore_errors=True)
     return results
 
